@@ -25,8 +25,10 @@ PROPS = {
                 theorems=[], profiles=[("chains", 1554, 55986), ("chainsr", 300, 20000), ("wf", 300, 20000)]),
     "C08": dict(level="translation_validation", modules=["SemVerif.Props.C08"],
                 theorems=[], profiles=[("wf", 600, 40000), ("wfclean", 300, 20000)]),
-    "C09": dict(level="translation_validation", modules=["SemVerif.Props.C09"],
-                theorems=[], profiles=[("wf", 400, 30000), ("wild", 400, 30000), ("fault1", 200, 10000)]),
+    "C09": dict(level="proof", modules=["SemVerif.Props.C09"],
+                theorems=["SemVerif.C09", "SemVerif.C09_function", "SemVerif.steps_functionBody"],
+                claim="Machine-checked Lean 4 theorem C09: for every program p, the output predicate of the property (result registers of every function stack strictly increasing, starting at 1) holds on the model's result `run p` — proved by showing that every analysis run is a chain of primitive steps (steps_functionBody, mutual structural induction over the AST, no bound on size or depth) each of which keeps the invariant 'all live blocks carry the same counter and it bounds every written register'. The model is tied to /repo on every run by the correspondence check (same projection, plus the same Lean predicate evaluated on the implementation's result).",
+                technique="Lean 4 proof (invariant over primitive steps, mutual structural induction) + differential correspondence of the executable model", profiles=[("wf", 400, 30000), ("wild", 400, 30000), ("fault1", 200, 10000)]),
     "C10": dict(level="translation_validation", modules=["SemVerif.Props.C10"],
                 theorems=[], profiles=[("wf", 500, 30000), ("wild", 400, 30000), ("fault1", 100, 10000)]),
     "C11": dict(level="translation_validation", modules=["SemVerif.Props.C11"],
